@@ -36,7 +36,9 @@ Record tw := mkTw {
   tw_foot : N;   (* rewind_footer: address of the current footer on entry *)
   tw_ptr  : N;   (* rewind_ptr: the finger on entry *)
   tw_res  : N;   (* inner_result_ptr: where the Result<T,E> was reserved *)
-  tw_size : N    (* ghost: size of that slot (never read by the control flow) *)
+  tw_size : N;   (* ghost: size of that slot (never read by the control flow) *)
+  tw_top  : N    (* ghost: end of the region the reservation moved the finger over: the old finger,
+                    or the footer of the chunk obtained for the slot (never read by the control flow) *)
 }.
 
 Record bump := mkBump {
@@ -316,7 +318,9 @@ Definition tw_begin (k : cfg) (A : acquirer) (b : bump) (l : layout) : bump * ou
   let rp := cur_ptr k b in
   let r := try_alloc k A b l in
   match o_res (snd r) with
-  | ROk p => (push_tw (fst r) (mkTw foot rp p (l_size l)), snd r)
+  | ROk p =>
+      let top := if cur_foot k (fst r) =? foot then rp else cur_foot k (fst r) in
+      (push_tw (fst r) (mkTw foot rp p (l_size l) top), snd r)
   | _ => r
   end.
 
